@@ -35,17 +35,19 @@ def family_case(ctx_seed, fam):
     prems, conc = proofwl.gen_case(rng, logic)
     return logic, prems, conc
 
-def permute(rng, prems):
+def permute(rng, prems, k=None):
+    """k-th premise arrangement of a run: original, reversed, rotated, then shuffles with a
+    duplicated premise (every run covers the first ones, so order effects do not depend on luck)."""
     prems = list(prems)
-    r = rng.random()
-    if r < 0.4 or not prems:
+    if not prems or k == 0:
         return prems
-    if r < 0.7:
-        rng.shuffle(prems)
-        return prems
-    prems.insert(rng.randrange(len(prems) + 1), rng.choice(prems))   # duplicate a premise
+    if k == 1:
+        return prems[::-1]
+    if k == 2:
+        return prems[1:] + prems[:1]
     if rng.random() < 0.5:
-        rng.shuffle(prems)
+        prems.insert(rng.randrange(len(prems) + 1), rng.choice(prems))   # duplicate a premise
+    rng.shuffle(prems)
     return prems
 
 def make_cfgs(ctx, logic, prems, conc):
@@ -56,7 +58,7 @@ def make_cfgs(ctx, logic, prems, conc):
         opts = dict(proofwl.ALL_OPT_COMBOS[(k + srng.randrange(4)) % 4])
         opts['is_build_models'] = srng.random() < 0.6
         opts['max_steps'] = GUARD_STEPS
-        cfgs.append(proofsim.Config(logic, permute(srng, prems), conc, opts,
+        cfgs.append(proofsim.Config(logic, permute(srng, prems, (k + ctx.salt) % 4), conc, opts,
             order_seed=srng.choice((0, srng.getrandbits(32), srng.getrandbits(32))),
             cache=srng.choice(proofsim.CACHE_SIZES), drive=('build', 'step', 'stepiter')[k % 3]))
     return cfgs
